@@ -21,7 +21,7 @@ CONSTANTS
   OptFlags,    \* flags switched by the "opts" family
   PushLens,    \* lengths of Push batches
   DstCaps,     \* capacities of the Transfer destination
-  DstOps,      \* calls issued on the second handle: subset of {"push","pop","ronly","nnest"}
+  DstOps,      \* calls issued on the second handle: subset of {"push","pop","ronly","nnest","policy"}
   IdxMode,     \* "existing": Remove/Replace/Swap only address existing positions (C01);
                \* "all": every index incl. out-of-range and MinInt/MaxInt stand-ins (C08)
   OUT          \* file the transition table is written to ("" = do not emit)
@@ -73,7 +73,7 @@ AuxCalls ==
   \cup {[op |-> "SetLogger", arg |-> a] : a \in {"stdout", "STDOUT", "int1", "stderr", "StdErr", "int2", "custom", "off", "discard", "int0", "nil", "junk", "int7"}}
 
 SettingCalls(s) ==
-       {[op |-> "SetID", v |-> v] : v \in {"", "x", "_random", "_RANDOM", "_addr"}}
+       {[op |-> "SetID", v |-> v] : v \in {"", "x", "_random", "_RANDOM", "_addr", "_Xy"}}      \* _Xy: only the two reserved words are special, everything else is kept verbatim
   \cup {[op |-> "SetCategory", v |-> v] : v \in {"", "k"}}
   \cup {[op |-> "SetDelimiter", form |-> "str", v |-> v] : v \in {"", ","}}
   \cup {[op |-> "SetDelimiter", form |-> "rune", v |-> ";"], [op |-> "SetDelimiter", form |-> "nil", v |-> ""],
@@ -133,7 +133,9 @@ DstCalls == IF "transfer" \in Fams
             THEN (IF "push" \in DstOps THEN {[op |-> "Push", xs |-> xs] : xs \in Batches} ELSE {}) \cup
                  (IF "pop" \in DstOps THEN {[op |-> "Pop"]} ELSE {}) \cup
                  (IF "ronly" \in DstOps THEN {[op |-> "SetOpt", f |-> "ronly", m |-> "toggle"]} ELSE {}) \cup
-                 (IF "nnest" \in DstOps THEN {[op |-> "SetOpt", f |-> "nnest", m |-> "toggle"]} ELSE {})
+                 (IF "nnest" \in DstOps THEN {[op |-> "SetOpt", f |-> "nnest", m |-> "toggle"]} ELSE {}) \cup
+                 (IF "policy" \in DstOps THEN {[op |-> "SetPushPolicy", on |-> TRUE, acc |-> SetToSeq(Vals)],       \* approves everything
+                                                [op |-> "SetPushPolicy", on |-> FALSE, acc |-> <<>>]} ELSE {})
             ELSE {}
 XferCalls == IF "transfer" \in Fams
              THEN {[op |-> "Transfer", form |-> f, dir |-> d] : f \in Forms, d \in {"fwd", "back"}}
